@@ -5,4 +5,9 @@ import Props.C11
 #print axioms Webauthn.Props.C11.leftover_plain
 #print axioms Webauthn.Props.C11.parseCbor_err
 #print axioms Webauthn.Props.C11.flagsByteOf_total
+#print axioms Webauthn.Props.C11.exact
+#print axioms Webauthn.Props.C11.suffix_rejected
 #print axioms Webauthn.Props.C10.layout
+#print axioms Webauthn.Cbor.dec_enc
+#print axioms Webauthn.parseCbor_enc
+#print axioms Webauthn.parseAuthData_encode_sfx
